@@ -815,8 +815,8 @@ def harnesses(tier: str) -> List[Harness]:
         hs.append(Harness("quote", h_quote, [dict(dn=d, n=n, cls=",".join(cv)) for n in range(1, nmax + 1)
                                               for cv in itertools.product(CLASSES, repeat=n)],
                           budget_s=60 if q else 400))
-    hs = [Harness("quote", h_quote, [sl for h in hs for sl in h.slices], budget_s=60 if q else 900,
-                  per_path_timeout=10 if q else 30)]
+    hs = [Harness("quote", h_quote, [sl for h in hs for sl in h.slices], budget_s=90 if q else 900,
+                  per_path_timeout=30)]
     hs.append(Harness("escape", h_escape,
                       [dict(dn=d, n=n) for d in DIALECTS for n in range(0, (3 if q else 4) + 1)],
                       budget_s=30 if q else 200))
